@@ -1,7 +1,8 @@
 """C18 - redact accepts exactly the well-defined jobs; rejections have no side effects."""
-import itertools, os, socket, subprocess, tempfile, threading, shutil
+import itertools, os, random, socket, subprocess, tempfile, threading, shutil
 from concurrent.futures import ThreadPoolExecutor
 from vlib.run import *
+from vlib import streams
 
 NAMES = ['file', 'stdin', 'out', 'encrypt', 'regexp', 'fieldnames', 'proj', 'cluster', 'pub', 'priv', 'start', 'end', 'env']
 LINE = b'{"t":{"$date":"2020-01-01T00:00:00.000+00:00"},"s":"I","c":"COMMAND","id":1,"ctx":"c","msg":"Slow query","attr":{"ns":"d.c","command":{"find":"c","filter":{"a":"s"}}}}\n'
@@ -227,6 +228,11 @@ def run(chk, replay=None):
     chk.streams.append({'stream': 'all 8192 combinations: CLI vs extracted decide/effects vs independent rule table', 'cases': len(combos)})
     chk.streams.append({'stream': 'the 4096 combinations with stdin input again, stdin redirected from a regular file', 'cases': len(sub_combos)})
     chk.streams.append({'stream': 'the 4096 combinations with a file argument again, the argument being the empty string', 'cases': len(file_combos)})
+    # the whole command (Model/Job.v: main.go's Run end to end) against the CLI on small worlds: exit status, file system and standard output
+    from vlib import joblib
+    jrng = random.Random(chk.seed * 7919 + 1818)
+    jpool = [l for l, _ in streams.grammar_lines(jrng, 25, 0.1) + streams.fixture_lines()[:8]]
+    joblib.correspondence(chk, jrng, 300 if chk.tier == 'thorough' else 120, jpool)
     chk.sample({'flags': ['file', 'out', 'encrypt'], 'expected': 'accept:file'}); chk.sample({'flags': ['start', 'end', 'out', 'env'], 'expected': 'reject (Atlas without project/cluster)'})
     chk.assumptions += ["presence/absence only, plus the empty string as the file argument: other flag VALUES (empty flag values, zero dates, -q '') are not enumerated", "cobra/pflag parsing is not modelled",
                         "runtime failures after validation (unreachable Atlas endpoint, unreadable input) are not rejections 'decided from the flags'"]
